@@ -7,7 +7,7 @@
     on the real resolver's observations on every run).
 
     FINDING.  The property is stated "no matter how many requested keys share a name".  That part is
-    FALSE of the faithful model and of the real code: [resolve] collects the keys into a table indexed
+    FALSE of the faithful model [resolve] of the code as found: it collects the keys into a table indexed
     by package NAME (a later key with the same name overwrites version and span, keeping the first
     position) and tags each download with its TABLE position, but stores the downloaded content under
     [keys.get_index(tag)], a position in the ORIGINAL key list.  With keys [a@1.0.0; a@2.0.0; b] the
@@ -15,7 +15,14 @@
     ([resolve_shared_name_refuted]; replayed on the real resolver by the correspondence).
     The full-strength statement is therefore kept in comments and the theorems below carry the
     hypothesis [no_shared_name keys], except [error_attributed] and [resolve_never_panics], which hold
-    at full strength. *)
+    at full strength.
+
+    REPAIRED in /repo by commit 4b151d2 (one table entry per requested key): the current code follows
+    [resolve_fixed] (the correspondence decides on every run which of the two models the implementation
+    follows, and anything but [resolve_fixed] is a violation now that the repair is recorded as `fixed`);
+    the [fixed_*] theorems below state the property at FULL strength, without [no_shared_name], for it.
+    The as-found model [resolve] and its theorems are kept so that a return of the defect is recognised
+    and replayed with the witness of [resolve_shared_name_refuted]. *)
 From Coq Require Import Permutation.
 From WacV Require Import Str Ord Semver Registry RegistrySpec RegistryProofs.
 
